@@ -124,6 +124,19 @@ fn enc(ws: &[&str]) -> String {
     }
 }
 
+/// `feat a,b,c`: riscv `parse_features` on the given identifiers → the resulting ExtensionFlags bits and the diagnostics
+fn feat(rest: &str) -> String {
+    let _ = proc_macro_error2::take_errors();
+    let idents: Result<Vec<syn::Ident>, _> = rest.split(',').map(|s| s.trim()).filter(|s| !s.is_empty()).map(|s| syn::parse_str::<syn::Ident>(s)).collect();
+    let Ok(idents) = idents else { return "bad-ident".into() };
+    let r = catch_unwind(AssertUnwindSafe(|| crate::arch::riscv::parse_features(&idents)));
+    let errs = proc_macro_error2::take_errors();
+    match r {
+        Ok(flags) => format!("{} errors={}", flags.bits(), errs.len()),
+        Err(_) => "panic".into(),
+    }
+}
+
 fn exec() {
     let stdin = io::stdin();
     let stdout = io::stdout();
@@ -139,6 +152,7 @@ fn exec() {
             "cl" => answer_compile(rest),
             "ser" => answer_serialize(rest),
             "enc" => { let ws: Vec<&str> = t.split_whitespace().collect(); enc(&ws) }
+            "feat" => feat(rest),
             _ => "bad-op".into(),
         };
         writeln!(out, "= {}", ans).unwrap();
